@@ -7,7 +7,9 @@ def run(ctx):
                 "Python `is`-identity of what remote_ methods receive: every delivered reference is classified against the "
                 "proxies the receiver still holds; proxies sent home / called through must reach the original object; a case "
                 "is one history; non-trivial = a reference was delivered while a proxy for the same object was held; plus the "
-                "bound-method witness (D15) and a three-Tub gift scenario")
+                "bound-method witness (D15), three- and four-Tub gift scenarios, all interleavings (depth 6 / 8) around a decref in "
+                "flight, and a reconnection family (two successive connections between the same Tubs, stale proxies sent home / "
+                "called / used after the second connection exists)")
     ctx.assumptions = [
         "CPython collects a proxy on the last `del` (+gc.collect()): DropProxy is an explicit action; modelled, not verified",
         "FIFO byte streams both ways, one queue item per top-level banana object; eventual-queue FIFO order relied upon",
@@ -22,16 +24,15 @@ def run(ctx):
         ctx.fail(sig, text, replay=dict(witness="bound method sent, proxy collected, sent again (notes/e6.py)"))
     ctx.case(["d15-bound-method"], nontrivial=True)
     results = R.check_refs(ctx, "C08", "redelivery-while-held")
-    try:
-        from harness import c08_impl
-        c08_impl.gifts(ctx)
-    except ImportError:
-        pass
+    from harness import c08_impl
+    c08_impl.gifts(ctx)
+    c08_impl.reconnect(ctx, "C08")
     model_ok = ok
     if not ok:
         model_ok, _ = ctx.coq_build(["lib/Refs.vo"])
     if model_ok:
         R.correspond(ctx, "C08", results)
+        c08_impl.wire_correspondence(ctx)
     # a failing input that is a listed known finding does not explain a broken proof
     known = common.load_known()
     fresh = [f for f in ctx.failures[before:] if not (f["has_input"] and known.get(("C08", f["sig"]), {}).get("status") == "known")]
